@@ -1,7 +1,7 @@
 #!/bin/bash
-# usage: sa/rfdbg.sh <refactor-id> <PROP>...   -- apply a refactor to a scratch copy and show failing obligations
+# usage: sa/rfdbg.sh <refactor-id | seed-id> <PROP>...   -- apply a refactor to a scratch copy and show failing obligations
 R="$1"; shift
 D=/tmp/rfdbg-$R
-if [ ! -d $D ]; then mkdir -p $D && cp -r /repo/src /repo/Cargo.toml /repo/Cargo.lock $D/ && [ -d /repo/tests ] && cp -r /repo/tests $D/; [ -d /repo/benches ] && cp -r /repo/benches $D/; (cd $D && patch -p1 -s < /verif/refactors/$R/patch.diff); fi
+if [ ! -d $D ]; then mkdir -p $D && cp -r /repo/src /repo/Cargo.toml /repo/Cargo.lock $D/ && [ -d /repo/tests ] && cp -r /repo/tests $D/; [ -d /repo/benches ] && cp -r /repo/benches $D/; P=/verif/refactors/$R/patch.diff; [ -f $P ] || P=/verif/seeded/$R/patch.diff; (cd $D && patch -p1 -s < $P); fi
 cd /verif
 for p in "$@"; do VERIF_TARGET_DIR=/verif/.work/target-ctl-9 python3 -m sa.run $p --repo $D --no-evidence 2>&1 | grep -E "^  src|^      |^C[0-9]+ " | grep -v "^      instance" | cut -c1-600; done
